@@ -32,6 +32,7 @@ CONSTANTS
     MaxPost,      \* bound on non-final completions per multishot operation
     MaxRestart,   \* bound on interrupted attempts per operation
     Bufs,         \* buffer ids of the read buffer pool (a set of naturals, {} = no pool)
+    WithTeardown, \* BOOLEAN: the Ring may be dropped in the middle of a history
     TrackRes,     \* BOOLEAN: model the life cycle of descriptors / pool buffers carried by results
     Dev           \* enabled deviations (known findings), subset of Deviations
 
@@ -39,7 +40,8 @@ CONSTANTS
 \* accept: every result is a descriptor), "fdsingle" (open/accept/socket: the
 \* result is a descriptor), "poolsingle" (read into a pool buffer), "poolmulti"
 \* (multishot read: every result is a pool buffer).
-Deviations == {"WakeParkedOnlyAfterEnter", "LeakFdOfAbandonedOp", "LoseBufOfAbandonedOp"}
+Deviations == {"WakeParkedOnlyAfterEnter", "LeakFdOfAbandonedOp", "LoseBufOfAbandonedOp",
+               "CloseQueuedAfterRingDrop"}
 
 ASSUME Dev \subseteq Deviations
 
@@ -71,11 +73,12 @@ VARIABLES
     res,        \* [ResVals -> state] descriptor / buffer carried by the result with that value
     bring,      \* the buffer ring: buffer ids offered to the kernel, in order
     vbuf,       \* [ResVals -> buffer id or -1] which buffer the kernel selected for that result
+    alive,      \* the Ring has not been dropped yet
     act         \* observation record of the last action (not part of VIEW)
 
 rvars == <<res, bring, vbuf>>
-vars == <<sq, inflight, nposted, cq, backlog, op, blocked, awoken, posted, delivered, res, bring, vbuf, act>>
-view == <<sq, inflight, nposted, cq, backlog, op, blocked, awoken, posted, delivered, res, bring, vbuf>>
+vars == <<sq, inflight, nposted, cq, backlog, op, blocked, awoken, posted, delivered, res, bring, vbuf, alive, act>>
+view == <<sq, inflight, nposted, cq, backlog, op, blocked, awoken, posted, delivered, res, bring, vbuf, alive>>
 
 IsMulti(o)   == Kind[o] \in {"multi", "poolmulti"}
 IsTwoStep(o) == Kind[o] = "twostep"
@@ -129,6 +132,7 @@ Init ==
     /\ res = [v \in ResVals |-> "none"]
     /\ bring = SetToSeq(Bufs)
     /\ vbuf = [v \in ResVals |-> -1]
+    /\ alive = TRUE
     /\ act = NoObs
 
 HasRoom == Len(sq) < SQN
@@ -153,6 +157,7 @@ AbandonAll(o, q, res0, bring0, vb) ==
 (***************************************************************************)
 
 Create(o) ==
+    /\ alive /\ UNCHANGED alive
     /\ op[o].st = "new"
     /\ op' = [op EXCEPT ![o].st = "idle"]
     /\ act' = Obs("Create", o, 0, "", <<"none">>, <<>>, {}, {})
@@ -176,6 +181,7 @@ Take(o, v) == IF ResKind(o) /\ v > 0 /\ v \in ResVals THEN [res EXCEPT ![v] = "o
 
 Poll(o, w) ==
     LET r == op[o] IN
+    /\ alive /\ UNCHANGED alive
     /\ r.st \in {"idle", "running", "done"}
     /\ CASE r.st = "idle" ->
               /\ SubmitOrPark(o, w, r)
@@ -220,6 +226,7 @@ Poll(o, w) ==
 \* Dropping the future (op.rs 182-205).
 Drop(o) ==
     LET r == op[o] IN
+    /\ UNCHANGED alive
     /\ r.st \in {"idle", "running", "done", "complete"}
     /\ IF r.st = "running"
        THEN /\ op' = [op EXCEPT ![o].st = "dropped", ![o].waker = NoWaker]
@@ -241,12 +248,19 @@ Drop(o) ==
 \* (io_uring/io.rs 166-216).
 DropRes(v) ==
     /\ TrackRes \/ Bufs # {}
+    /\ UNCHANGED alive
     /\ res[v] = "owned"
     /\ IF FdKind(OpOfVal(v))
        THEN /\ bring' = bring
-            /\ IF HasRoom
+            /\ IF ~alive /\ "CloseQueuedAfterRingDrop" \notin Dev
+               THEN \* Contract: with the Ring gone nobody will submit a queued close.
+                    /\ sq' = sq
+                    /\ res' = [res EXCEPT ![v] = "closed"]
+                    /\ act' = [Obs("DropRes", v, 0, "fd", <<"none">>, <<>>, {}, {}) EXCEPT !.sync = TRUE]
+               ELSE IF HasRoom
                THEN /\ sq' = Append(sq, CloseEntry(v))
-                    /\ res' = [res EXCEPT ![v] = "closing"]
+                    \* As written: queued, and if the Ring is gone never submitted.
+                    /\ res' = [res EXCEPT ![v] = IF alive THEN "closing" ELSE "leaked"]
                     /\ act' = Obs("DropRes", v, 0, "fd", <<"none">>, <<CloseEntry(v)>>, {}, {})
                ELSE /\ sq' = sq
                     /\ res' = [res EXCEPT ![v] = "closed"]
@@ -259,6 +273,7 @@ DropRes(v) ==
 
 \* SubmissionQueue::wake while no poll is in progress: only sets the bit.
 Wake ==
+    /\ alive /\ UNCHANGED alive
     /\ ~awoken
     /\ awoken' = TRUE
     /\ act' = Obs("Wake", 0, 0, "", <<"none">>, <<>>, {}, {})
@@ -314,6 +329,7 @@ PostRes(o, c, res0, bring0, vbuf0) ==
          ELSE <<[res0 EXCEPT ![c.val] = "kernel"], bring0, vbuf0>>
 
 KPost(o, k) ==
+    /\ alive /\ UNCHANGED alive
     /\ inflight[o]
     /\ k \in PostKinds(o)
     /\ LET c  == KindCqe(o, k)
@@ -391,69 +407,98 @@ SeqToSet(s) == {s[i] : i \in 1..Len(s)}
 \* `ch`: outcome of each cancel request consumed; `k`: what the kernel does
 \* while the call is blocked ("" = nothing happens).
 RingPoll(tmo, ch, blockOp, blockKind) ==
-    IF cq # <<>>
-    THEN \* Completions are visible: no system call, just process them.
-         /\ blockOp = 0 /\ blockKind = "" /\ ch = [i \in 1..Len(sq) |-> TRUE]
-         /\ LET pr == Process(cq, <<op, {}, {}, res, bring>>, vbuf) IN
-            /\ op' = pr[1] /\ res' = pr[4] /\ bring' = pr[5]
-            /\ act' = [Obs("RingPoll", 0, 0, tmo, <<"ok">>, <<>>, pr[2], pr[3]) EXCEPT !.ch = ch]
-         /\ cq' = <<>>
-         /\ UNCHANGED <<sq, inflight, nposted, backlog, blocked, awoken, posted, delivered, vbuf>>
-    ELSE \* io_uring_enter: the kernel consumes every published entry ...
-         LET c1 == Consume(sq, 1, ch, <<inflight, nposted, cq, backlog, posted, res>>)
-             fl == Flush(c1[3], c1[4])
-             consumed == Len(sq)
-             quick == tmo = "zero" \/ awoken          \* effective timeout is zero
-             empty == fl[1] = <<>>
-             parkedRoom == blocked # <<>>             \* room is available now: queue is empty
-         IN
-         /\ IF ~empty \/ quick
-            THEN \* ... and the call returns at once.
-                 /\ blockOp = 0 /\ blockKind = ""
-                 /\ LET woke == consumed > 0 \/ ~empty      \* enter returned Ok(n), not ETIME
-                        pr == Process(fl[1], <<op, IF woke THEN SeqToSet(blocked) ELSE {}, {}, c1[6], bring>>, vbuf)
-                    IN /\ op' = pr[1] /\ res' = pr[4] /\ bring' = pr[5] /\ vbuf' = vbuf
-                       /\ blocked' = IF woke THEN <<>> ELSE blocked
-                       /\ act' = [Obs("RingPoll", 0, 0, tmo, <<"ok">>, <<>>, pr[2], pr[3]) EXCEPT !.ch = ch]
-                 /\ inflight' = c1[1] /\ nposted' = c1[2] /\ cq' = <<>> /\ backlog' = fl[2]
-                 /\ posted' = c1[5]
-            ELSE \* ... and the call blocks until the kernel posts something.
-                 IF parkedRoom /\ "WakeParkedOnlyAfterEnter" \notin Dev
-                 THEN \* Contract: parked futures are woken once room is available and
-                      \* the call does not keep the caller blocked.
-                      /\ blockOp = 0 /\ blockKind = ""
-                      /\ op' = op /\ blocked' = <<>> /\ res' = c1[6] /\ bring' = bring /\ vbuf' = vbuf
-                      /\ act' = [Obs("RingPoll", 0, 0, tmo, <<"ok">>, <<>>, SeqToSet(blocked), {}) EXCEPT !.ch = ch]
-                      /\ inflight' = c1[1] /\ nposted' = c1[2] /\ cq' = <<>> /\ backlog' = fl[2]
-                      /\ posted' = c1[5]
-                 ELSE IF blockOp = 0
-                 THEN \* Nothing ever completes: the call never returns.
-                      /\ blockKind = ""
-                      /\ op' = op /\ blocked' = blocked /\ res' = c1[6] /\ bring' = bring /\ vbuf' = vbuf
-                      /\ act' = [Obs("RingPoll", 0, 0, tmo, <<"blocked_forever">>, <<>>, {}, {})
-                                   EXCEPT !.blocks = TRUE, !.parked = parkedRoom, !.ch = ch]
-                      /\ inflight' = c1[1] /\ nposted' = c1[2] /\ cq' = <<>> /\ backlog' = fl[2]
-                      /\ posted' = c1[5]
-                 ELSE \* The kernel posts one completion, which ends the wait.
-                      /\ c1[1][blockOp]
-                      /\ blockKind \in PostKinds(blockOp) \* evaluated on the pre-state: att unchanged by Consume
-                      /\ LET c  == [KindCqe(blockOp, blockKind) EXCEPT
-                                      !.val = IF blockKind \in {"ok", "more", "first"}
-                                              THEN Val(blockOp, op[blockOp].att, c1[2][blockOp] + 1) ELSE @]
-                             px == PostRes(blockOp, c, c1[6], bring, vbuf)
-                             pr == Process(<<c>>, <<op, SeqToSet(blocked), {}, px[1], px[2]>>, px[3])
-                         IN /\ op' = pr[1] /\ res' = pr[4] /\ bring' = pr[5] /\ vbuf' = px[3]
-                            /\ blocked' = <<>>
-                            /\ act' = [Obs("RingPoll", blockOp, 0, tmo, <<"ok">>, <<>>, pr[2], pr[3])
-                                         EXCEPT !.blocks = TRUE, !.parked = parkedRoom, !.w = 0,
-                                                !.k = tmo \o "/" \o blockKind, !.ch = ch, !.cqe = CqeObs(c)]
-                            /\ inflight' = [c1[1] EXCEPT ![blockOp] = c.more]
-                            /\ nposted' = [c1[2] EXCEPT ![blockOp] = IF c.more THEN @ + 1 ELSE 0]
-                            /\ posted' = [c1[5] EXCEPT ![blockOp] = IF c.notif THEN @ ELSE Append(@, c.val)]
-                      /\ cq' = <<>> /\ backlog' = fl[2]
-         /\ sq' = <<>>
-         /\ awoken' = FALSE
-         /\ UNCHANGED delivered
+    /\ alive /\ UNCHANGED alive
+    /\ IF cq # <<>>
+           THEN \* Completions are visible: no system call, just process them.
+                /\ blockOp = 0 /\ blockKind = "" /\ ch = [i \in 1..Len(sq) |-> TRUE]
+                /\ LET pr == Process(cq, <<op, {}, {}, res, bring>>, vbuf) IN
+                   /\ op' = pr[1] /\ res' = pr[4] /\ bring' = pr[5]
+                   /\ act' = [Obs("RingPoll", 0, 0, tmo, <<"ok">>, <<>>, pr[2], pr[3]) EXCEPT !.ch = ch]
+                /\ cq' = <<>>
+                /\ UNCHANGED <<sq, inflight, nposted, backlog, blocked, awoken, posted, delivered, vbuf>>
+           ELSE \* io_uring_enter: the kernel consumes every published entry ...
+                LET c1 == Consume(sq, 1, ch, <<inflight, nposted, cq, backlog, posted, res>>)
+                    fl == Flush(c1[3], c1[4])
+                    consumed == Len(sq)
+                    quick == tmo = "zero" \/ awoken          \* effective timeout is zero
+                    empty == fl[1] = <<>>
+                    parkedRoom == blocked # <<>>             \* room is available now: queue is empty
+                IN
+                /\ IF ~empty \/ quick
+                   THEN \* ... and the call returns at once.
+                        /\ blockOp = 0 /\ blockKind = ""
+                        /\ LET woke == consumed > 0 \/ ~empty      \* enter returned Ok(n), not ETIME
+                               pr == Process(fl[1], <<op, IF woke THEN SeqToSet(blocked) ELSE {}, {}, c1[6], bring>>, vbuf)
+                           IN /\ op' = pr[1] /\ res' = pr[4] /\ bring' = pr[5] /\ vbuf' = vbuf
+                              /\ blocked' = IF woke THEN <<>> ELSE blocked
+                              /\ act' = [Obs("RingPoll", 0, 0, tmo, <<"ok">>, <<>>, pr[2], pr[3]) EXCEPT !.ch = ch]
+                        /\ inflight' = c1[1] /\ nposted' = c1[2] /\ cq' = <<>> /\ backlog' = fl[2]
+                        /\ posted' = c1[5]
+                   ELSE \* ... and the call blocks until the kernel posts something.
+                        IF parkedRoom /\ "WakeParkedOnlyAfterEnter" \notin Dev
+                        THEN \* Contract: parked futures are woken once room is available and
+                             \* the call does not keep the caller blocked.
+                             /\ blockOp = 0 /\ blockKind = ""
+                             /\ op' = op /\ blocked' = <<>> /\ res' = c1[6] /\ bring' = bring /\ vbuf' = vbuf
+                             /\ act' = [Obs("RingPoll", 0, 0, tmo, <<"ok">>, <<>>, SeqToSet(blocked), {}) EXCEPT !.ch = ch]
+                             /\ inflight' = c1[1] /\ nposted' = c1[2] /\ cq' = <<>> /\ backlog' = fl[2]
+                             /\ posted' = c1[5]
+                        ELSE IF blockOp = 0
+                        THEN \* Nothing ever completes: the call never returns.
+                             /\ blockKind = ""
+                             /\ op' = op /\ blocked' = blocked /\ res' = c1[6] /\ bring' = bring /\ vbuf' = vbuf
+                             /\ act' = [Obs("RingPoll", 0, 0, tmo, <<"blocked_forever">>, <<>>, {}, {})
+                                          EXCEPT !.blocks = TRUE, !.parked = parkedRoom, !.ch = ch]
+                             /\ inflight' = c1[1] /\ nposted' = c1[2] /\ cq' = <<>> /\ backlog' = fl[2]
+                             /\ posted' = c1[5]
+                        ELSE \* The kernel posts one completion, which ends the wait.
+                             /\ c1[1][blockOp]
+                             /\ blockKind \in PostKinds(blockOp) \* evaluated on the pre-state: att unchanged by Consume
+                             /\ LET c  == [KindCqe(blockOp, blockKind) EXCEPT
+                                             !.val = IF blockKind \in {"ok", "more", "first"}
+                                                     THEN Val(blockOp, op[blockOp].att, c1[2][blockOp] + 1) ELSE @]
+                                    px == PostRes(blockOp, c, c1[6], bring, vbuf)
+                                    pr == Process(<<c>>, <<op, SeqToSet(blocked), {}, px[1], px[2]>>, px[3])
+                                IN /\ op' = pr[1] /\ res' = pr[4] /\ bring' = pr[5] /\ vbuf' = px[3]
+                                   /\ blocked' = <<>>
+                                   /\ act' = [Obs("RingPoll", blockOp, 0, tmo, <<"ok">>, <<>>, pr[2], pr[3])
+                                                EXCEPT !.blocks = TRUE, !.parked = parkedRoom, !.w = 0,
+                                                       !.k = tmo \o "/" \o blockKind, !.ch = ch, !.cqe = CqeObs(c)]
+                                   /\ inflight' = [c1[1] EXCEPT ![blockOp] = c.more]
+                                   /\ nposted' = [c1[2] EXCEPT ![blockOp] = IF c.more THEN @ + 1 ELSE 0]
+                                   /\ posted' = [c1[5] EXCEPT ![blockOp] = IF c.notif THEN @ ELSE Append(@, c.val)]
+                             /\ cq' = <<>> /\ backlog' = fl[2]
+                /\ sq' = <<>>
+                /\ awoken' = FALSE
+                /\ UNCHANGED delivered
+
+\* Dropping the Ring (lib.rs 213-217, cq.rs Completions::drop): submit what is
+\* queued, cancel everything still in flight, process every completion left.
+RECURSIVE CancelAll(_, _)
+CancelAll(os, s) ==  \* s = <<inflight, nposted, cq, backlog, posted>>
+    IF os = <<>> THEN s
+    ELSE LET o == Head(os) IN
+         IF s[1][o]
+         THEN LET pb == Publish(Cqe(o, ECANCELED, FALSE, FALSE), s[3], s[4]) IN
+              CancelAll(Tail(os), <<[s[1] EXCEPT ![o] = FALSE], [s[2] EXCEPT ![o] = 0], pb[1], pb[2],
+                                    [s[5] EXCEPT ![o] = Append(@, ECANCELED)]>>)
+         ELSE CancelAll(Tail(os), s)
+
+DropRing(ch) ==
+    /\ alive
+    /\ alive' = FALSE
+    /\ LET c1 == Consume(sq, 1, ch, <<inflight, nposted, cq, backlog, posted, res>>)
+           c2 == CancelAll(SetToSeq(Ops), <<c1[1], c1[2], c1[3], c1[4], c1[5]>>)
+           \* Every parked waker is woken by the flush (enter returned Ok).
+           pr == Process(c2[3] \o c2[4], <<op, SeqToSet(blocked), {}, c1[6], bring>>, vbuf)
+       IN /\ inflight' = c2[1] /\ nposted' = c2[2] /\ posted' = c2[5]
+          /\ cq' = <<>> /\ backlog' = <<>>
+          /\ op' = pr[1] /\ res' = pr[4] /\ bring' = pr[5] /\ vbuf' = vbuf
+          /\ blocked' = <<>>
+          /\ act' = [Obs("DropRing", 0, 0, "", <<"none">>, <<>>, pr[2], pr[3]) EXCEPT !.ch = ch]
+    /\ sq' = <<>>
+    /\ awoken' = FALSE
+    /\ UNCHANGED delivered
 
 CancelChoices == [1..Len(sq) -> BOOLEAN]
 \* Only positions holding a cancel whose target may be in flight matter; fix the
@@ -467,6 +512,7 @@ Next ==
     \/ \E v \in ResVals : DropRes(v)
     \/ Wake
     \/ \E o \in Ops, k \in {"ok", "more", "first", "first_eintr", "notif", "err", "eintr", "ecanceled"} : KPost(o, k)
+    \/ \E ch \in CancelChoices : RelevantChoice(ch) /\ WithTeardown /\ DropRing(ch)
     \/ \E tmo \in {"zero", "none"}, ch \in CancelChoices :
          /\ RelevantChoice(ch)
          /\ \/ RingPoll(tmo, ch, 0, "")
@@ -554,6 +600,13 @@ CancelOnlyDropped == \A i \in 1..Len(sq) : sq[i].t = "cancel" => op[sq[i].o].st 
 NoLeakAtQuiescence ==
     \A o \in Ops : op[o].st = "dropped" =>
         \/ KernelMayAccess(o) \/ Pending(o) \/ PendingB(o)
+
+\* C12: once the Ring is gone nothing is left in flight, every abandoned
+\* operation has been reclaimed and no close request is waiting to be submitted.
+RingGoneClean ==
+    ~alive => /\ \A o \in Ops : ~inflight[o] /\ op[o].st # "dropped"
+              /\ cq = <<>> /\ backlog = <<>>
+              /\ \A v \in ResVals : res[v] # "closing"
 
 \* C07: every descriptor the kernel returned ends up owned by exactly one
 \* AsyncFd or is closed; never forgotten.  C08: likewise every pool buffer.
